@@ -193,11 +193,11 @@ PROPS = {
         },
     },
     "C06": {
-        "engine": "wire",
-        "instrument": "",
-        "cfgs": [""],
+        "parts": [
+            {"engine": "wire", "cfgs": [""], "modreplace": QUIC_MODREPLACE, "share": 2, "chunk": 150},
+            {"engine": "fwdsim", "instrument": "internal/dnsserver/forward=dial", "cfgs": [""], "share": 1, "chunk": 1500},
+        ],
         "det_runs": 12,
-        "modreplace": QUIC_MODREPLACE,
         "det_trace": False,
         "quick": {"seconds": 60, "chunk": 150, "runs": 4000, "chunk_ms": 40000, "kill_after": 300},
         "thorough": {"seconds": 1200, "chunk": 400, "kill_after": 600},
@@ -241,6 +241,30 @@ PROPS = {
             "real": ["internal/dnsserver normalize/truncate, response writers of UDP, TCP, DoT, DoH, DoQ", "miekg/dns Truncate and packing"],
             "stub": ["network (simnet)", "handler (pipeline function with size-by-name responses)"],
             "sim": "clock: testing/synctest; network: /verif/sim/simnet immediate mode",
+        },
+    },
+    "C17": {
+        "engine": "fwdsim",
+        "instrument": "internal/dnsserver/forward=dial",
+        "cfgs": [""],
+        "quick": {"seconds": 30, "chunk": 1500, "runs": 60000},
+        "thorough": {"seconds": 900, "chunk": 5000},
+        "rule": ("one run = real forward.Handler with 1-3 main and 0-2 fallback UpstreamPlain upstreams (network any, 1s "
+                 "timeout, backoff 0/1s/10s/1min) dialling scripted servers on the simulated network; 3-30 operations, each "
+                 "preceded by tape-chosen state changes of the upstreams (up, silent, refusing, closing after read, wrong ID, "
+                 "wrong name, wrong type, two questions, truncated-UDP-then-TCP, garbage, bare header, header counts without "
+                 "records, SERVFAIL, NXDOMAIN, duplicated reply) and a clock advance from {0, 0.1s, backoff/2, backoff-1ms, "
+                 "backoff, backoff+1ms, 31s}; an operation is a query with a unique name or a health-check round; every run "
+                 "is non-trivial; distinct = distinct decision-sequence hash"),
+        "assumptions": [
+            "upstream states change between operations, not during one",
+            "which active main (and which fallback) is chosen is left free; the upstream-side receive log is the ground truth for who got the query",
+            "a probe exactly at lastFailed+backoff may or may not be sent",
+        ],
+        "components": {
+            "real": ["internal/dnsserver/forward: Handler, healthcheck, UpstreamPlain (UDP, TCP fallback, validation)", "internal/dnsserver/pool (connection pool)"],
+            "stub": ["upstream DNS servers (scripted, on simnet)", "net.DialTimeout (overlay dial seam -> simnet)"],
+            "sim": "clock: testing/synctest; network: /verif/sim/simnet immediate mode; sequential history",
         },
     },
 }
